@@ -29,7 +29,7 @@ HARNESS_BIN = os.path.join(WORK, "harness")
 REPO = os.environ.get("VERIF_REPO", "/repo")
 
 sys.path.insert(0, os.path.join(ROOT, "lib"))
-from props import PROPS, GEN_FILES  # noqa: E402
+from props import PROPS, GEN_FILES, SETUP_CMDS  # noqa: E402
 
 ENV = dict(os.environ)
 ENV.update(GOFLAGS="-mod=mod", GOPROXY="off", GOSUMDB="off", GOTOOLCHAIN="local",
@@ -438,6 +438,11 @@ def setup():
         if rc != 0:
             log(out[-6000:])
             sys.exit(2)
+        for cmd in SETUP_CMDS:   # per-property setup steps (lib/props.d/*.py: SETUP), e.g. extracted models
+            rc, out = sh([os.path.join(ROOT, cmd[0])] + cmd[1:], cwd=ROOT, timeout=3000)
+            if rc != 0:
+                log(out[-6000:])
+                sys.exit(2)
     bad = forbidden_scan()
     if bad:
         log("forbidden constructs:", bad)
